@@ -235,28 +235,34 @@ def analyse(case, io):
                         "get_active_task() inside task %s returned %s" % (list(t), a[1]))
             else:
                 var, v = a[1], a[2]
-                # C07: innermost enclosing override in this task or in the tasks awaiting it
-                exp = None
-                cur = t
-                guard = 0
-                while exp is None and guard < 1000:
-                    guard += 1
+                # C07: innermost enclosing override in this task or in the tasks awaiting it.  A task awaited by one task
+                # has one such override; for a SHARED task (a stored handle awaited by several pending tasks) the statement
+                # leaves open which awaiter counts, so the read must be the innermost override along ONE of the chains of
+                # tasks awaiting it (a read inside an override block of the reading task itself is always unambiguous)
+                def innermost(cur, seen):
                     for sp in reversed(openctx.get(cur, [])):
                         if "override" in sp and sp["override"][1] == var:
-                            exp = {"VInt": [sp["override"][2]]}
-                            break
-                    if exp is not None:
-                        break
+                            return [{"VInt": [sp["override"][2]]}]
+                    if cur in seen or len(seen) > 1000:
+                        return []
+                    seen.add(cur)
                     aw = awaiters(cur)
-                    if len(aw) == 0:
-                        exp = {"VInt": [0]}
-                    elif len(aw) == 1:
-                        cur = aw[0]
-                    else:
-                        exp = "no-claim"
-                if exp != "no-claim" and exp != v:
+                    if not aw:
+                        return [{"VInt": [0]}]
+                    res = []
+                    for x in aw:
+                        for y in innermost(x, seen):
+                            if y not in res:
+                                res.append(y)
+                    return res
+                cands = innermost(t, set())
+                if len(cands) == 1 and cands[0] != v:
                     add("C07:read", "scoped-read-differs",
-                        "task %s read variable %d = %s, the innermost enclosing override gives %s" % (list(t), var, v, exp))
+                        "task %s read variable %d = %s, the innermost enclosing override gives %s" % (list(t), var, v, cands[0]))
+                elif len(cands) > 1 and v not in cands:
+                    add("C07:read", "scoped-read-differs:shared-task",
+                        "task %s read variable %d = %s, the innermost enclosing overrides along the chains of tasks awaiting it "
+                        "give %s" % (list(t), var, v, cands))
         elif n == "EvDone":
             t = _t(a[0])
             if t in done:
